@@ -833,7 +833,12 @@ def series_computation(
         name: linear_operator_wrapped(series) for name, series in series.items()
     }
 
+    # Start values cannot be recomputed, they are never deleted.
+    start_keys = {}
+
     def del_(series_name, index: int) -> None:
+        if index in start_keys.get(series_name, ()):
+            return
         series[series_name].pop(index, None)
         linear_operator_series[series_name].pop(index, None)
 
@@ -861,6 +866,7 @@ def series_computation(
         exec(compile(term.definition, filename="<string>", mode="exec"), eval_scope)
 
         series_data = data.get(term.start, None)
+        start_keys[term.name] = frozenset(series_data or ())
 
         series[term.name] = BlockSeries(
             eval=eval_scope["series_eval"],
